@@ -1581,7 +1581,15 @@ def tie_case(ctx, prop, case, r, drv):
                     ctx.count("tie:stopped-at-real-exception")
                     return
                 if p == "reduce_affine_expression":
-                    ctx.count("tie:observed-only:" + p)
+                    d = tie_affine(ctx, drv, pre_m, post_m)
+                    if d is None:
+                        ctx.count("tie:affine-outside-model")
+                    elif d:
+                        ctx.disagreement("simplify.pass:" + p, dict(case, iteration=j, **{"pass": p}), model=d[:4], impl=None)
+                        return
+                    else:
+                        ctx.count("tie:pass-agreed")
+                        ctx.count("tie:affine-rows-agreed")
                     pre_m = post_m
                     continue
                 # observed renormalisation (vector expansion of a scalar model, SX round trip): value-preserving?
@@ -1608,6 +1616,48 @@ def tie_case(ctx, prop, case, r, drv):
             if not (iterative and j >= 3):
                 ctx.disagreement("simplify.loop", case, model=[categories(pre_m), len(pre_m.equations)],
                                  impl=[r.cat, len(r.model.equations)])
+
+
+def tie_affine(ctx, drv, pre_m, post_m):
+    """The model's rows `A x + b` (evaluated by the Lean `Ex.eval`) against the real collapsed residual
+    functions (evaluated by CasADi) at exact points; None = state outside the model."""
+    pre_st = ser_state(pre_m)
+    if hasattr(pre_m, "_states_vector") or not state_ok(pre_st):
+        return None
+    ans = drv.ask({"op": "simplify.pass", "pass": "reduce_affine_expression", "state": pre_st, "opts": {}})
+    if not ans.get("ok") or ans.get("raised") is not None:
+        raise HarnessError("model driver rejected reduce_affine_expression: %s" % str(ans)[:300])
+    mst = ans["state"]
+    names = set()
+    for g in ("states", "ders", "algs", "inputs", "params", "consts"):
+        names.update(_names(pre_st[g]))
+    for t in mst["eqs"] + mst["inits"]:
+        names.update(tree_syms(t))
+    diffs = []
+    try:
+        fd, fi = post_m.dae_residual_function, post_m.initial_residual_function
+    except Exception as e:  # noqa: BLE001
+        return ["real collapsed residual cannot be built: %s" % str(e)[:120]]
+    envs = _env_points(ctx.rng, names)
+    for grp, f, kind in (("eqs", fd, "dae"), ("inits", fi, "initial")):
+        if not mst[grp]:
+            continue
+        sig_m, sig_r = [], []
+        cols_m = [_eval_lean(drv, mst[grp], env) for env in envs]
+        try:
+            cols_r = [[fstr(x) if isinstance(x, Fraction) else str(x)
+                       for x in call_residual(f, post_m, {k: Fraction(v) for k, v in env}, kind)] for env in envs]
+        except EvalError as e:
+            return ["real collapsed %s residual cannot be evaluated: %s" % (kind, e)]
+        if len(cols_r[0]) != len(mst[grp]):
+            diffs.append("%s: model has %d rows, real residual %d" % (grp, len(mst[grp]), len(cols_r[0])))
+            continue
+        sig_m = sorted(tuple(c[i] for c in cols_m) for i in range(len(mst[grp])))
+        sig_r = sorted(tuple(c[i] for c in cols_r) for i in range(len(mst[grp])))
+        if sig_m != sig_r:
+            diffs.append("%s rows of A x + b differ at exact points: only model %s, only real %s"
+                         % (grp, [x for x in sig_m if x not in sig_r][:2], [x for x in sig_r if x not in sig_m][:2]))
+    return diffs
 
 
 def _lean_ar(drv, st):
